@@ -107,7 +107,8 @@ Definition show_head (h : head) : string :=
   | HAttr => ("#[" ++ h_name h ++ "]")%string
   end.
 
-Inductive event := EHead (h : head) | EBind (x : string) | EMethod (x : string).
+Inductive event := EHead (h : head) | EBind (x : string) | EMethod (x : string)
+                 | EGen (x : string).   (* generic parameter declared by the template; lifetimes as "'a" *)
 
 Inductive fkind :=
 | KTop | KParen | KBracket | KBrace
@@ -186,7 +187,8 @@ Definition classify_id (st : state) (x : string) (nx : ftok) : list event :=
     else if is_p nx "!" then mk HMacro else []
   else if is_p p "." then
     (if is_open nx Paren || is_p nx "::" then [EMethod x] else [])
-  else if is_p p "'" then []                                            (* lifetime / label *)
+  else if is_p p "'" then                                               (* lifetime / label *)
+    (if (f_gen (s_cur st) =? 1)%nat && (is_p pp "<" || is_p pp ",") then [EGen ("'" ++ x)%string] else [])
   else if is_p p "::" then
     (if s_use st && (is_p nx ";" || is_id nx "as") && path_continues pp then
        (if is_p nx ";" then [EBind x] else [])                          (* `use a::b::X;` brings X into scope *)
@@ -220,7 +222,7 @@ Definition classify_id (st : state) (x : string) (nx : ftok) : list event :=
   else if is_p nx ":" && fkind_eqb k KBrace && negb (s_where st) &&
           (is_open p Brace || is_p p ",") then []                       (* field name in a struct expr/decl *)
   else if (f_gen (s_cur st) =? 1)%nat && (is_p p "<" || is_p p ",") &&
-          (is_p nx ":" || is_p nx "," || is_p nx ">" || is_p nx "=") then [EBind x]  (* generic parameter decl *)
+          (is_p nx ":" || is_p nx "," || is_p nx ">" || is_p nx "=") then [EBind x; EGen x]  (* generic parameter decl *)
   else if is_p nx "=" && (is_p p "<" || is_p p ",") &&
           ((0 <? f_angle (s_cur st))%nat || fkind_eqb k KMacro) then [] (* `Item = T` in generic args / named fmt arg *)
   else if is_p nx "::" then mk HRoot
@@ -423,6 +425,328 @@ Definition fmt_ident_ok (s : string) : bool :=
   | String c _ => local_like s || (nat_of_ascii c =? 123)%nat || (nat_of_ascii c =? 39)%nat
   end.
 
+(* ------------------------------------------------------------------ 2b. inventories: paths, macros, method calls, generics *)
+
+Definition generic_params (t : template) : list string :=
+  flat_map (fun e => match e with EGen x => [x] | _ => [] end) (events t).
+
+(* ---- paths: a left-to-right fold independent of the frame automaton.
+   A path is a maximal run  [::] seg (:: seg)*  ; segments are identifiers or interpolations ("#x");
+   a leading `::` gives the first segment ""; a path continuing a `<T as Tr>` qualifier starts with "<>". *)
+Record pstate := { p_cur : list string (* reversed *); p_sep : bool; p_prev : ftok }.
+
+Definition path_kw_ok : list string := ["self"; "Self"; "crate"; "super"].
+
+Definition pflush (macro : bool) (cur : list string) : list (bool * list string) :=
+  match cur with
+  | [] => []
+  | [x] => if String.eqb x "" || String.eqb x "<>" then [] else [(macro, [x])]   (* a lone `::` (turbofish) is no path *)
+  | _ => [(macro, rev cur)]
+  end.
+
+Definition pstep (st : pstate) (t : ftok) : pstate * list (bool * list string) :=
+  let cur := p_cur st in
+  let seg (x : string) (startable : bool) :=
+    if p_sep st then ({| p_cur := x :: cur; p_sep := false; p_prev := t |}, [])
+    else if is_p (p_prev st) "." || is_p (p_prev st) "'" || negb startable
+         then ({| p_cur := []; p_sep := false; p_prev := t |}, pflush false cur)
+         else ({| p_cur := [x]; p_sep := false; p_prev := t |}, pflush false cur) in
+  match t with
+  | FId x => seg x (negb (mem x keywords) || mem x path_kw_ok)
+  | FInterp x => seg ("#" ++ x)%string true
+  | FPunct s =>
+      if String.eqb s "::" then
+        (match cur with
+         | [] => ({| p_cur := [if is_p (p_prev st) ">" then "<>" else ""]; p_sep := true; p_prev := t |}, [])
+         | _ => if p_sep st then ({| p_cur := []; p_sep := false; p_prev := t |}, pflush false cur)
+                else ({| p_cur := cur; p_sep := true; p_prev := t |}, [])
+         end)
+      else if String.eqb s "!" && negb (p_sep st) then
+        ({| p_cur := []; p_sep := false; p_prev := t |}, pflush true cur)
+      else ({| p_cur := []; p_sep := false; p_prev := t |}, pflush false cur)
+  | _ => ({| p_cur := []; p_sep := false; p_prev := t |}, pflush false cur)
+  end.
+
+Fixpoint prun (st : pstate) (l : list ftok) : list (bool * list string) :=
+  match l with
+  | [] => pflush false (p_cur st)
+  | t :: r => let '(st', out) := pstep st t in out ++ prun st' r
+  end.
+
+Definition paths (t : template) : list (bool * list string) :=
+  prun {| p_cur := []; p_sep := false; p_prev := START |} (flatten (t_tokens t)).
+
+(* every macro invoked by a template, with its full path *)
+Definition macro_paths (t : template) : list (list string) :=
+  flat_map (fun p : bool * list string => if fst p then [snd p] else []) (paths t).
+
+(* a macro path is hygienic iff it is `derive_more::core::<name>` *)
+Definition macro_path_ok (p : list string) : bool :=
+  match p with
+  | a :: b :: _ :: _ => String.eqb a "derive_more" && String.eqb b "core"
+  | _ => false
+  end.
+
+(* paths rooted at derive_more (literal prefix) *)
+Definition dm_paths (t : template) : list (list string) :=
+  flat_map (fun p : bool * list string => match snd p with
+                     | a :: _ => if String.eqb a "derive_more" then [snd p] else []
+                     | [] => []
+                     end) (paths t).
+
+Definition is_interp_seg (s : string) : bool :=
+  match s with String c _ => (nat_of_ascii c =? 35)%nat | EmptyString => false end.
+
+Definition mem_path (p : list string) (l : list (list string)) : bool :=
+  existsb (fun q => if list_eq_dec string_dec p q then true else false) l.
+
+(* is `derive_more::s2[::s3]..` backed by an item that /repo/src/lib.rs exports?  [exports] is regenerated from
+   src/lib.rs: [["core"]; ["__private";"Conv"]; ["BinaryError"]; ["with_trait";"Error"]; ..] *)
+Definition dm_path_exported (exports : list (list string)) (p : list string) : bool :=
+  match p with
+  | _ :: s2 :: rest =>
+      if is_interp_seg s2 then false
+      else if String.eqb s2 "core" then mem_path ["core"] exports
+      else if String.eqb s2 "__private" || String.eqb s2 "with_trait" then
+        match rest with
+        | s3 :: _ => if is_interp_seg s3 then mem_path [s2] exports else mem_path [s2; s3] exports
+        | [] => mem_path [s2] exports
+        end
+      else mem_path [s2] exports
+  | _ => false
+  end.
+
+(* ---- method calls `recv . name (` : the receiver decides whether the call can observe the caller's scope
+   (for a user-typed receiver the trait must be in scope at the call site, and an inherent method of the user's
+   type with the same name wins). *)
+Inductive recv :=
+| RUser                      (* interpolated expression: the user's field / type *)
+| RField                     (* a field access  x . f *)
+| RSelf
+| RLocal (x : string)        (* a local of the expansion *)
+| RChain (r : recv)          (* result of a previous method call on r *)
+| RLit
+| ROther.
+
+Inductive simple := SEmpty | SOnly (x : string) | SBad.
+
+Record gframe := { g_call : option recv; g_simple : simple }.
+
+Record mstate := {
+  m_p1 : ftok; m_p2 : ftok; m_p3 : ftok;
+  m_closed : recv;
+  m_cur : gframe; m_stack : list gframe;
+  m_last : option recv }.
+
+Record msite := { ms_recv : recv; ms_name : string }.
+
+Definition recv_of (p2 p3 : ftok) (closed : recv) : recv :=
+  match p2 with
+  | FInterp _ => RUser
+  | FId y => if is_p p3 "." then RField else if String.eqb y "self" then RSelf else RLocal y
+  | FClose Paren => closed
+  | FLit => if is_p p3 "." then RField else RLit          (* tuple field  x . 0 *)
+  | _ => ROther
+  end.
+
+Definition simple_step (s : simple) (t : ftok) : simple :=
+  match t with
+  | FPunct p => if mem p ["&"; "&&"; "*"] then s else SBad
+  | FId y => if String.eqb y "mut" then s
+             else match s with SEmpty => if mem y keywords then SBad else SOnly y | _ => SBad end
+  | _ => SBad
+  end.
+
+Definition mshift (st : mstate) (t : ftok) (closed : recv) (cur : gframe) (stack : list gframe) (last : option recv) : mstate :=
+  {| m_p1 := t; m_p2 := m_p1 st; m_p3 := m_p2 st; m_closed := closed; m_cur := cur; m_stack := stack; m_last := last |}.
+
+Definition mstep (st : mstate) (t : ftok) (nx : ftok) : mstate * list msite :=
+  let cur := m_cur st in
+  match t with
+  | FOpen d =>
+      let call := match d with
+                  | Paren => if is_p (m_p2 st) "." then m_last st else None
+                  | _ => None
+                  end in
+      (mshift st t (m_closed st) {| g_call := call; g_simple := SEmpty |}
+              ({| g_call := g_call cur; g_simple := SBad |} :: m_stack st) None, [])
+  | FClose _ =>
+      let c := match g_call cur with
+               | Some r => RChain r
+               | None => match g_simple cur with SOnly y => RLocal y | _ => ROther end
+               end in
+      (match m_stack st with
+       | f :: r => mshift st t c f r None
+       | [] => mshift st t c cur [] None
+       end, [])
+  | FId x | FInterp x =>
+      let nm := match t with FInterp _ => ("#" ++ x)%string | _ => x end in
+      if is_p (m_p1 st) "." && (is_open nx Paren || is_p nx "::") then
+        let r := recv_of (m_p2 st) (m_p3 st) (m_closed st) in
+        (mshift st t (m_closed st) {| g_call := g_call cur; g_simple := SBad |} (m_stack st) (Some r),
+         [{| ms_recv := r; ms_name := nm |}])
+      else
+        (mshift st t (m_closed st) {| g_call := g_call cur; g_simple := simple_step (g_simple cur) t |} (m_stack st)
+                (if is_p (m_p1 st) "::" then m_last st else None), [])
+  | _ =>
+      (mshift st t (m_closed st) {| g_call := g_call cur; g_simple := simple_step (g_simple cur) t |} (m_stack st)
+              (match t with FPunct s => if mem s ["::"; "<"; ">"; ","; "_"] then m_last st else None | _ => None end), [])
+  end.
+
+Fixpoint mrun (st : mstate) (l : list ftok) : list msite :=
+  match l with
+  | [] => []
+  | t :: r => let '(st', out) := mstep st t (opt_tok (hd_error r)) in out ++ mrun st' r
+  end.
+
+Definition method_sites (t : template) : list msite :=
+  mrun {| m_p1 := START; m_p2 := START; m_p3 := START; m_closed := ROther;
+          m_cur := {| g_call := None; g_simple := SEmpty |}; m_stack := []; m_last := None |}
+       (flatten (t_tokens t)).
+
+(* ---- the declared type of a binder: head of the type of `x : TYPE` (fn parameter) or of the initialiser of
+   `let x = INIT` *)
+Inductive tycls := TyDm | TyPrim | TyGeneric | TyUser.
+
+Record tstate := { ty_of : option string; ty_p1 : ftok; ty_p2 : ftok; ty_stack : list delim }.
+
+Definition ty_skip (t : ftok) (p1 : ftok) : bool :=
+  match t with
+  | FPunct s => mem s [":"; "="; "&"; "&&"; "*"; "'"; "<"]
+  | FId y => mem y ["mut"; "dyn"] || is_p p1 "'"
+  | _ => false
+  end.
+
+(* [gp]: generic parameters the template declares itself *)
+Definition ty_class (gp : list string) (t : ftok) : tycls :=
+  match t with
+  | FId y => if String.eqb y "derive_more" then TyDm
+             else if mem y primitives then TyPrim
+             else if mem y gp then TyGeneric else TyUser
+  | _ => TyUser
+  end.
+
+Definition ty_push (st : list delim) (t : ftok) : list delim :=
+  match t with
+  | FOpen d => d :: st
+  | FClose _ => tl st
+  | _ => st
+  end.
+
+Definition in_paren (st : list delim) : bool := match st with Paren :: _ => true | _ => false end.
+
+Definition tystep (lb gp : list string) (st : tstate) (t : ftok) (nx : ftok) : tstate * list (string * tycls) :=
+  let stack := ty_push (ty_stack st) t in
+  match ty_of st with
+  | Some x =>
+      if ty_skip t (ty_p1 st) then ({| ty_of := Some x; ty_p1 := t; ty_p2 := ty_p1 st; ty_stack := stack |}, [])
+      else ({| ty_of := None; ty_p1 := t; ty_p2 := ty_p1 st; ty_stack := stack |}, [(x, ty_class gp t)])
+  | None =>
+      match t with
+      | FId x =>
+          if mem x lb && negb (is_p (ty_p1 st) ".") && negb (is_p (ty_p1 st) "::") &&
+             ((is_p nx ":" && in_paren (ty_stack st) &&
+               (is_open (ty_p1 st) Paren || is_p (ty_p1 st) "," || is_id (ty_p1 st) "mut")) ||          (* fn parameter *)
+              (is_p nx "=" && (is_id (ty_p1 st) "let" || (is_id (ty_p1 st) "mut" && is_id (ty_p2 st) "let"))))
+          then ({| ty_of := Some x; ty_p1 := t; ty_p2 := ty_p1 st; ty_stack := stack |}, [])
+          else ({| ty_of := None; ty_p1 := t; ty_p2 := ty_p1 st; ty_stack := stack |}, [])
+      | _ => ({| ty_of := None; ty_p1 := t; ty_p2 := ty_p1 st; ty_stack := stack |}, [])
+      end
+  end.
+
+Fixpoint tyrun (lb gp : list string) (st : tstate) (l : list ftok) : list (string * tycls) :=
+  match l with
+  | [] => []
+  | t :: r => let '(st', out) := tystep lb gp st t (opt_tok (hd_error r)) in out ++ tyrun lb gp st' r
+  end.
+
+Definition typed_binders (t : template) : list (string * tycls) :=
+  tyrun (binders t) (generic_params t) {| ty_of := None; ty_p1 := START; ty_p2 := START; ty_stack := [] |}
+        (flatten (t_tokens t)).
+
+Definition global_typed_binders (ts : list template) : list (string * tycls) := flat_map typed_binders ts.
+
+Definition tycls_user (c : tycls) : bool := match c with TyUser => true | _ => false end.
+
+(* a local is not user-typed iff it has at least one declaration and none of its declarations (in any template)
+   is user-typed *)
+Definition local_not_user_typed (gt : list (string * tycls)) (x : string) : bool :=
+  let ds := filter (fun d => String.eqb (fst d) x) gt in
+  negb (match ds with [] => true | _ => false end) && forallb (fun d => negb (tycls_user (snd d))) ds.
+
+Fixpoint recv_root (r : recv) : recv := match r with RChain r' => recv_root r' | _ => r end.
+
+(* the receiver's type is fixed by the macro (std / derive_more type, primitive, or a generic parameter the template
+   declares with its own bound): the call cannot pick up an inherent method of a user type *)
+Definition method_site_closed (gt : list (string * tycls)) (s : msite) : bool :=
+  match recv_root (ms_recv s) with
+  | RLocal y => local_not_user_typed gt y
+  | RLit => true
+  | _ => false
+  end.
+
+Definition method_offenders_of (gt : list (string * tycls)) (t : template) : list (string * string) :=
+  map (fun s => (t_file t, ms_name s)) (filter (fun s => negb (method_site_closed gt s)) (method_sites t)).
+
+Definition method_offenders (ts : list template) : list (string * string) :=
+  flat_map (method_offenders_of (global_typed_binders ts)) ts.
+
+Definition is_ruser (r : recv) : bool := match r with RUser => true | _ => false end.
+
+Definition method_key (o : string * string) : string := (fst o ++ ":." ++ snd o)%string.
+
+(* the one remaining dot call on a user-typed receiver (listed in /verif/KNOWN_FINDINGS.json under exactly this key):
+   `#expr.as_dyn_error()` (error.rs, fn render_some) - the
+   autoref-specialisation of the vendored thiserror `AsDynError`, whose trait the enclosing template imports with
+   `use derive_more::__private::AsDynError;`.  Everything else (in particular `self.#i.#method_ident(rhs.#i)` of the
+   operator derives before /repo 03334c2) is outside this list and breaks C15_method_calls_classified. *)
+Definition known_method_sites : list string := [ "error.rs:.as_dyn_error" ].
+
+(* ---- names of generic parameters / lifetimes the macro introduces next to the user's own parameters *)
+Definition starts_dunder (s : string) : bool :=
+  match s with
+  | String a (String b (String c _)) =>
+      if (nat_of_ascii a =? 39)%nat then (nat_of_ascii b =? 95)%nat && (nat_of_ascii c =? 95)%nat
+      else (nat_of_ascii a =? 95)%nat && (nat_of_ascii b =? 95)%nat
+  | String a (String b _) => (nat_of_ascii a =? 95)%nat && (nat_of_ascii b =? 95)%nat
+  | _ => false
+  end.
+
+(* first character that is not `_` / `'` is upper case: a type-, const- or lifetime-parameter-like manufactured name *)
+Fixpoint type_like (s : string) : bool :=
+  match s with
+  | EmptyString => false
+  | String c r => let n := nat_of_ascii c in
+                  if (n =? 95)%nat then type_like r
+                  else ((65 <=? n)%nat && (n <=? 90)%nat)
+  end.
+
+Definition is_lifetime_name (s : string) : bool :=
+  match s with String c _ => (nat_of_ascii c =? 39)%nat | _ => false end.
+
+Definition lifetime_template (t : template) : list string :=
+  match t_tokens t with
+  | [TPunct q; TId x] => if String.eqb q "'" then [("'" ++ x)%string] else []
+  | _ => []
+  end.
+
+Definition type_name_template (t : template) : list string :=
+  match t_tokens t with
+  | [TId x] => if type_like x && negb (mem x keywords) then [x] else []
+  | _ => []
+  end.
+
+(* all names the macro introduces into the generic-parameter namespaces: declared `<..>` lists of templates,
+   one-token templates that are a type-like name or a lifetime, format_ident!/Lifetime::new literals that are type-like
+   or lifetimes.  `'_` is the anonymous lifetime. *)
+Definition introduced_generics (ts : list template) (fmts : list (string * nat * string)) : list string :=
+  filter (fun x => negb (String.eqb x "'_"))
+    (flat_map (fun t => generic_params t ++ lifetime_template t ++ type_name_template t) ts ++
+     flat_map (fun f => if is_lifetime_name (snd f) || type_like (snd f) then [snd f] else []) fmts).
+
+(* no exception left: `fn provide<'_request>` of error.rs became `'__derive_more_request` in /repo df4f803 *)
+Definition known_non_dunder_generics : list string := [].
+
 (* ------------------------------------------------------------------ 3. name resolution *)
 
 Inductive item :=
@@ -471,3 +795,26 @@ Definition agree_on_nonprelude (H : string -> bool) (sc1 sc2 : scope) : Prop :=
 (* no std/core prelude defines `derive_more` or a primitive type name *)
 Definition prelude_wf (sc : scope) : Prop :=
   forall n x, reserved x = true -> sc_prelude sc n x = None.
+
+(* ------------------------------------------------------------------ 3b. method-call resolution (the logical skeleton)
+
+   `recv.m(..)`: rustc first looks for an inherent method `m` of the receiver's type, then for `m` among the traits
+   that are IN SCOPE at the call site and implemented for the receiver; two applicable traits are an ambiguity
+   error.  (Autoref steps are rustc's and are left to the oracle.) *)
+Inductive mres := MInherent (n : N) | MTrait (n : N) | MAmbiguous | MNone.
+
+Record mscope := {
+  mc_macro : list N;      (* traits the expansion itself brings into scope: `use derive_more::..::Tr as _`, the trait of
+                             the enclosing impl, bounds of generic parameters the template declares *)
+  mc_user : list N;       (* traits the caller's module has in scope (its own or imported ones) *)
+  mc_prelude : list N }.  (* traits of the std prelude *)
+
+Definition resolve_method (inherent : option N) (provides : N -> bool) (sc : mscope) : mres :=
+  match inherent with
+  | Some i => MInherent i
+  | None => match filter provides (mc_macro sc ++ mc_user sc ++ mc_prelude sc) with
+            | [] => MNone
+            | [c] => MTrait c
+            | _ => MAmbiguous
+            end
+  end.
